@@ -265,3 +265,80 @@ def targets():      # noqa: F811
     from . import c14
     shared = [t for t in c14.targets() if "__copy__" in t[0] or "__deepcopy__" in t[0]]
     return _targets_before_copies() + shared
+
+
+_targets_before_residual = targets
+
+
+def target_residual_and_weights():
+    """`_residual` and the four weight functions (what lmfit minimises): the parameters lmfit proposes are written into the circuit
+    FIRST (`_from_lmfit(params, identifiers)`), then the circuit is evaluated at the measured frequencies, and the vector returned
+    is weight(Z_exp, Z_fit) x [(Re Z_exp - Re Z_fit)^2, (Im Z_exp - Im Z_fit)^2] -- zero exactly where model and data agree, so the
+    generating parameters of a noise-free spectrum are a global minimum under every weight; unity = 1, modulus = 1/|Z_fit|,
+    proportional = (1/Re Z_fit^2, 1/Im Z_fit^2), boukamp = 1/(Re Z_exp^2 + Im Z_exp^2); `_WEIGHT_FUNCTIONS` names them as
+    documented.  Real functions on EUF terms (E3)."""
+    from pyvc import overload as O
+    from . import dataflow as DF
+    from .dataflow import T, opaque
+    FIT = "analysis/fitting"
+
+    def run(sess: Session):
+        order = []
+        Zexp, f = T.var("Z_exp"), T.var("f")
+
+        class Circuit:
+            def get_impedances(self, freq):
+                order.append(("get_impedances", freq))
+                return opaque("circuit.Z")(freq, "after _from_lmfit" if any(o[0] == "_from_lmfit" for o in order) else "before _from_lmfit")
+        cir = Circuit()
+        params, ids = T.var("params"), {1: "e"}
+        arr = opaque("array")
+        ones = opaque("ones")
+        ns = {"_from_lmfit": lambda p, i: order.append(("_from_lmfit", p, i)), "array": arr, "float64": "float64", "ones": ones, "abs": lambda x: abs(x)}
+        O.load(FIT, ["_residual", "_unity_weight", "_modulus_weight", "_proportional_weight", "_boukamp_weight"], ns)
+        w = opaque("weight_func")
+        out = ns["_residual"](params, cir, f, Zexp, w, ids)
+        Zfit = opaque("circuit.Z")(f, "after _from_lmfit")
+        sess.check("post", [], z3.BoolVal(len(order) == 2 and order[0][0] == "_from_lmfit" and order[0][1] is params and order[0][2] is ids and order[1][0] == "get_impedances" and order[1][1] is f), 0,
+                   label="_residual: the proposed parameters are written into the circuit before it is evaluated, once, at the measured frequencies")
+        want = w(Zexp, Zfit) * arr([(Zexp.real - Zfit.real) ** 2, (Zexp.imag - Zfit.imag) ** 2], dtype="float64")
+        DF.eq_check(sess, "_residual == weight(Z_exp, Z_fit) * [(Re Z_exp - Re Z_fit)^2, (Im Z_exp - Im Z_fit)^2]", out, want)
+        Zf = T.var("Z_fit")
+        one = ones(shape=(2, Zexp.size), dtype="float64")
+        DF.eq_check(sess, "_unity_weight == 1 (for both parts of every point)", ns["_unity_weight"](Zexp, Zf), one)
+        DF.eq_check(sess, "_modulus_weight == 1 / |Z_fit|", ns["_modulus_weight"](Zexp, Zf), one / abs(Zf))
+        DF.eq_check(sess, "_boukamp_weight == 1 / (Re Z_exp^2 + Im Z_exp^2)", ns["_boukamp_weight"](Zexp, Zf), (Zexp.real ** 2 + Zexp.imag ** 2) ** -1)
+
+        # proportional: rows of a 2 x N table are assigned
+        class Table:
+            def __init__(self):
+                self.rows = {0: T.var("row0"), 1: T.var("row1")}
+
+            def __getitem__(self, k):
+                return self.rows[k]
+
+            def __setitem__(self, k, v):
+                self.rows[k] = v
+        tbl = Table()
+        ns["ones"] = lambda **kw: tbl
+        got = ns["_proportional_weight"](Zexp, Zf)
+        ok = got is tbl
+        sess.check("post", [], z3.BoolVal(ok), 0, label="_proportional_weight returns the 2 x N table it filled")
+        if ok:
+            DF.eq_check(sess, "_proportional_weight[real part] == 1 / Re Z_fit^2", tbl.rows[0], T.var("row0") / Zf.real ** 2)
+            DF.eq_check(sess, "_proportional_weight[imaginary part] == 1 / Im Z_fit^2", tbl.rows[1], T.var("row1") / Zf.imag ** 2)
+        # the table of names
+        tree = core.module_ast(FIT)
+        table = None
+        import ast as _ast
+        for n in tree.body:
+            tgt = n.target if isinstance(n, _ast.AnnAssign) else (n.targets[0] if isinstance(n, _ast.Assign) else None)
+            if isinstance(tgt, _ast.Name) and tgt.id == "_WEIGHT_FUNCTIONS" and isinstance(n.value, _ast.Dict):
+                table = {k.value: _ast.unparse(v) for k, v in zip(n.value.keys, n.value.values) if isinstance(k, _ast.Constant)}
+        sess.check("post", [], z3.BoolVal(table == {"unity": "_unity_weight", "modulus": "_modulus_weight", "proportional": "_proportional_weight", "boukamp": "_boukamp_weight"}), 0,
+                   label="_WEIGHT_FUNCTIONS maps each documented weight name to the function of that name")
+    return (f"{FIT}:_residual and weights", FIT, "_residual", run)
+
+
+def targets():      # noqa: F811
+    return _targets_before_residual() + [target_residual_and_weights()]
